@@ -120,6 +120,7 @@ struct devstats {
     uint64_t seeks = 0;
     uint64_t seeks_beyond = 0; // seeks to a position outside [0,len]
     uint64_t is_ops = 0;       // std::istream-level operations (wrapped peek/get/readsome/read/seekg)
+    uint64_t short_small = 0;  // read calls asking for <= 8 bytes (a fixed-size field) that delivered fewer than asked
     uint64_t work = 0;         // sum over read calls of (bytes that could be delivered + 1): a huge request at EOF costs 1
 };
 struct budget_t {
@@ -209,8 +210,9 @@ inline ssize_t cookie_read(void* c, char* buf, size_t n) {
     size_t len = k->bytes->size();
     k->st->work += (k->pos < len ? (n < len - k->pos ? n : len - k->pos) : 0) + 1;
     check_budget();
-    if (k->pos >= len) { ++k->st->zero_eof; check_budget(); return 0; }
+    if (k->pos >= len) { ++k->st->zero_eof; if (n && n <= 8) ++k->st->short_small; check_budget(); return 0; }
     size_t m = n < len - k->pos ? n : len - k->pos;
+    if (m < n && n <= 8) ++k->st->short_small;
     memcpy(buf, k->bytes->data() + k->pos, m);
     k->pos += m; k->st->bytes_ret += m;
     return (ssize_t)m;
@@ -282,8 +284,9 @@ int __wrap__ZNSi3getEv(std::istream* s) {
 }
 std::streamsize __wrap__ZNSi8readsomeEPcl(std::istream* s, char* p, std::streamsize n) {
     c11::budget_t& b = c11::budget();
-    if (b.armed && b.st) ++b.st->is_ops;
-    return __real__ZNSi8readsomeEPcl(s, p, n);
+    std::streamsize r = __real__ZNSi8readsomeEPcl(s, p, n);
+    if (b.armed && b.st) { ++b.st->is_ops; if (n > 0 && n <= 8 && r < n) ++b.st->short_small; }
+    return r;
 }
 std::istream* __wrap__ZNSi4readEPcl(std::istream* s, char* p, std::streamsize n) {
     c11::budget_t& b = c11::budget();
@@ -349,7 +352,7 @@ struct outcome {
         d = vh::mix(d, (uint64_t)w); d = vh::mix(d, (uint64_t)h); d = vh::mix(d, pix); d = vh::mix(d, (uint64_t)rows);
         d = vh::mix(d, vh::hash_str(info));
         d = vh::mix(d, ops.calls); d = vh::mix(d, ops.bytes_req); d = vh::mix(d, ops.bytes_ret);
-        d = vh::mix(d, ops.zero_eof); d = vh::mix(d, ops.seeks); d = vh::mix(d, ops.seeks_beyond); d = vh::mix(d, ops.is_ops);
+        d = vh::mix(d, ops.zero_eof); d = vh::mix(d, ops.short_small); d = vh::mix(d, ops.seeks); d = vh::mix(d, ops.seeks_beyond); d = vh::mix(d, ops.is_ops);
         return d;
     }
     std::string str() const {
